@@ -30,9 +30,14 @@ PROP = dict(
                  "'fresh editor with the same configuration and user dictionary' = the public constructors applied to the same options, "
                  "engine, layout kind, dictionary contents, tables and estimator clock; the pending flush level (non-zero only directly "
                  "after an API learn/unlearn) is the one field a reset keeps and a constructor cannot set (reset_is_fresh states it)",
-                 "NOT proved: that the estimator clock (a new C context restarts it from the newest stored time) and the pending flush "
-                 "level are unobservable; reduced to the step property of one relation (resetFreshModuloClock_of_relation), covered by the "
-                 "paired executions with a restarted clock (Rust API) and with new C contexts",
+                 "the estimator clock (a new C context restarts it from the newest stored time) and the pending flush level are "
+                 "unobservable — PROVED (reset_is_fresh_modulo_clock, setMeta_invisible; step property applyR_metaEq through every arm of "
+                 "the state machine, all 14 operations, Proofs/EditorLinkMeta.lean + EditorLinkMeta2.lean, discharging "
+                 "resetFreshModuloClock_of_relation) under the hypothesis MetaBlindEnv on the components behind Env: the estimate does not "
+                 "depend on the clock (C08: delta t = 0 on the editor path), the time stamp stored by update_phrase is unobservable, "
+                 "reopen+flush leaves the observable dictionary unchanged; metaBlind_needed shows the hypothesis is needed (an estimator "
+                 "that reads the clock tells a reset editor from a fresh one). The hypothesis itself is not proved for the real "
+                 "components here; it is covered by the paired executions with a restarted clock (Rust API) and with new C contexts",
                  "known finding F33: the logger slot is process-wide (refutation proved, partial theorem excludes exactly that class)",
                  "chewing_userphrase_has_next/get without a preceding enumerate and chewing_free(chewing_get_selKey()) are not exercised: "
                  "both are memory-unsafe after updates (C15's subject), observed as aborts while building this harness"],
@@ -51,14 +56,19 @@ MANIFEST = dict(
          "yields exactly the constructors' editor for the same configuration, dictionary, tables, layout object and clock, up to the "
          "pending flush level; hence every continuation with queries anywhere agrees), its bisimulation form (Bisim, bisim_runs, "
          "reset_is_fresh_bisim), ctx_reset_eq_fresh / ctx_reset_is_fresh for the C context with its iterator slots (all call lists, "
-         "slot reads without Enumerate included), query_meta_blind, processKey_dirty, fresh_by_constructors, and the two reset "
-         "counter-examples before/after their fixes. Tie: per-step correspondence of model and real editor for every operation and "
+         "slot reads without Enumerate included), query_meta_blind, processKey_dirty, fresh_by_constructors, the two reset "
+         "counter-examples before/after their fixes, and reset_is_fresh_modulo_clock (a reset editor vs. a fresh editor with an "
+         "ARBITRARY estimator clock and flush level 0: indistinguishable by any history of operations and queries, in every environment "
+         "satisfying MetaBlindEnv = clock-independent estimate, unobservable stored time stamps, reopen+flush invisible; by the frame "
+         "proof applyR_metaEq through every arm of the state machine; metaBlind_needed: false without the hypothesis). Tie: per-step correspondence of model and real editor for every operation and "
          "for the 20 getters (edq records), plus the three paired-execution experiments on the real Rust API and on the real C API "
          "(oracle, child processes). Two genuine defects repaired by fix: commits (F25: saved cursors survive a reset; chewing_Reset kept the "
          "iterator slots); F33 (process-wide logger slot) is a known finding.",
-    note="Theorem: everything stated about the Lean model. Correspondence: model = real editor per step and per getter (hook H1). "
+    note="Theorem: everything stated about the Lean model (the clock / flush-level unobservability under the explicit environment "
+         "hypothesis MetaBlindEnv). Correspondence: model = real editor per step and per getter (hook H1). "
          "Oracle only (no model): the C layer's purity / Reset / independence, threads. Trusted: Lean kernel (propext, "
          "Classical.choice, Quot.sound), the read-only snapshot hooks, harness + compiled model driver.",
-    technique="Lean 4 proof (induction over histories, product construction, definitional unfolding of clear vs. constructors) over "
+    technique="Lean 4 proof (induction over histories, product construction, definitional unfolding of clear vs. constructors, relational frame "
+              "proof per arm of the state machine for the clock / flush level) over "
               "the modelled editor; per-step and per-getter model/implementation correspondence; differential paired executions",
 )
